@@ -25,6 +25,7 @@ func init() {
 			ruleDictCapEncode(c, r, "")
 			ruleLzmaFilterCodec(c, r, "")
 			ruleMatcherGuard(c, r, "", false)
+			ruleDeepCopy(c, r, "")
 			ruleCoderStates(c, r, "")
 			ruleProbModel(c, r, "")
 			ruleStateFormulas(c, r, "")
